@@ -64,9 +64,20 @@ def cvc5_check(smt2, timeout=CVC5_TIMEOUT_MS):
         return f'unknown({type(e).__name__}: {str(e)[:80]})', time.time() - t
 
 
-def discharge(vc, axioms, both=False, z3_timeout=Z3_TIMEOUT_MS):
+def discharge(vc, axioms, both=False, z3_timeout=Z3_TIMEOUT_MS, small=None):
+    """small: optional list of formula lists tried in order to obtain a SMALL counter-model (replayable);
+    the verdict itself never depends on them"""
     s, r, t = _z3_check(axioms, vc.pc, vc.goal, z3_timeout)
     model = s.model() if r == 'sat' else None
+    if r == 'sat' and small:
+        for extra in small:
+            s.push()
+            s.add(*extra)
+            if str(s.check()) == 'sat':
+                model = s.model()
+                s.pop()
+                break
+            s.pop()
     v = Verdict(vc.name, vc.kind, r, 'z3', t, model, vc.path, vc.note)
     if r == 'unknown' or both:
         smt2 = '(set-logic ALL)\n' + s.to_smt2()
